@@ -47,6 +47,7 @@ class FinalizeModel:
         self.stopped = False
         self.actions = 0
         self.sweep = True        # initial forward sweep still running
+        self.bounds = [0]        # starts/ends of the Forwards issued in the initial sweep
 
     def observers(self, obj):
         out = []
@@ -91,6 +92,8 @@ class FinalizeModel:
             if self.max_n is None:
                 self.told = n1
                 self.fwd = n1
+                if n1 < 10 ** 9:
+                    self.bounds += [n0, n1]
             else:
                 self.fwd = min(n1, self.max_n)
             if st in ("RAM", "DISK"):
@@ -165,8 +168,9 @@ class FinalizeModel:
         return (self.accepted >= 1 and self.rejected >= 1) or self.inside_multistep
 
     def pick_k(self, sel, rnd):
+        b = self.bounds[rnd % len(self.bounds)]          # a start/end of some Forward issued so far
         cands = [-1, 0, 1, 2, self.told - 1, self.told, self.told + 1, self.told // 2, self.max_n or 1, rnd,
-                 (self.max_n or self.told) - 1, (self.max_n or self.told) + 1]
+                 (self.max_n or self.told) - 1, (self.max_n or self.told) + 1, b, b - 1, b + 1, self.bounds[-2] if len(self.bounds) > 1 else 0]
         k = cands[sel % len(cands)]
         return int(max(-2, min(k, 10 ** 6)))
 
@@ -238,7 +242,7 @@ def make_machine():
                 self._guard(self.m.op_next)
 
         @precondition(lambda self: self.m is not None)
-        @rule(sel=st.integers(0, 11), rnd=st.integers(1, 40))
+        @rule(sel=st.integers(0, 15), rnd=st.integers(1, 40))
         def finalize(self, sel, rnd):
             self._guard(self.m.op_finalize, self.m.pick_k(sel, rnd))
 
@@ -275,6 +279,34 @@ def replay_ops(ops):
     except Violation as v:
         return (v.pred, v.detail, C.variant(m.cfg))
     return None
+
+
+def fin_box(tier):
+    """Every finalisation point of small online histories: j next() calls, then finalize(k) for EVERY
+    k in -1..told+1, then three more next() calls and an observer read."""
+    cfgs = [{"cls": "None", "n": 0, "passes": 1}, {"cls": "SingleMemory", "n": 0, "passes": 1},
+            {"cls": "SingleDisk", "move": False, "n": 0, "passes": 1}, {"cls": "SingleDisk", "move": True, "n": 0, "passes": 1}]
+    P = 5 if tier == "quick" else 8
+    for p in range(1, P + 1):
+        for b in (0, 2):
+            cfgs.append({"cls": "TwoLevel", "period": p, "b": b, "storage": "RAM" if (p + b) % 2 else "DISK",
+                         "traj": "maximum" if p % 2 else "revolve", "n": 0, "passes": 1})
+    J = 4 if tier == "quick" else 6
+    for cfg in cfgs:
+        step = cfg.get("period", 1)
+        for j in range(0, J + 1):
+            told = j * step if cfg["cls"] in ("TwoLevel", "SingleDisk") else (0 if j == 0 else 3)
+            for k in range(-1, min(told, 40) + 2):
+                yield [["init", cfg]] + [["next"]] * j + [["fin", k], ["next"], ["next"], ["next"], ["obs"], ["fin", k], ["next"]]
+
+
+def _fin_box_chunk(histories):
+    out = []
+    for ops in histories:
+        r = replay_ops(ops)
+        if r is not None:
+            out.append({"ops": ops, "pred": r[0], "detail": r[1], "variant": r[2]})
+    return {"n": len(histories), "fails": out}
 
 
 def _shard(job):
@@ -340,6 +372,16 @@ def run(prop, args):
         f = part["fail"]
         if f is not None:
             rep.add_violation((f["variant"], f["pred"]), {"ops": f["ops"]}, f["detail"], kind="history")
+    box = list(fin_box(tier))
+    for part in R.pmap(_fin_box_chunk, R.chunks(box, 64), chunksize=1):
+        rep.evaluations += part["n"]
+        for f in part["fails"]:
+            rep.add_violation((f["variant"], f["pred"]), {"ops": f["ops"]}, f["detail"], kind="history")
+    for ops in box:
+        if ops[0][1]["cls"] == "TwoLevel" and len(ops) > 9:
+            rep.nontrivial.add(json.dumps(ops, sort_keys=True))
+    rep.exhaustive = [{"box": "online classes (TwoLevel period<=%d), j<=%d next() calls, then finalize(k) for every k in -1..told+1, then 3 next(), observers, finalize(k) again, next()" % (
+        (5, 4) if tier == "quick" else (8, 6)), "cases": len(box), "exhaustive": True}]
     R.run_regress(rep, check_witness)
     rep.extra["histories"] = rep.evaluations
     rep.extra["stateful_step_count"] = steps
